@@ -57,6 +57,12 @@ func (s *Store[H]) deleteSingle(
 	}
 
 	hash, err := s.heightIndex.HashByHeight(ctx, height, false)
+	if errors.Is(err, datastore.ErrNotFound) {
+		// the header may still sit in the pending write batch with no height index on disk yet
+		if h := s.pending.GetByHeight(height); !h.IsZero() {
+			hash, err = h.Hash(), nil
+		}
+	}
 	if err != nil {
 		return fmt.Errorf("hash by height %d: %w", height, err)
 	}
